@@ -691,6 +691,13 @@ mod huffman {
                         }
                     }
 
+                    if self.pending_bits == 0 && std::ptr::eq(map, self.decode) {
+                        // No bits remain and no symbol is partially decoded: the item has ended.
+                        // Do not consult the table, whose first entry may be a multi-byte
+                        // prefix (`Further`) or, for an empty alphabet, unpopulated.
+                        return None;
+                    }
+
                     if self.pending_bits < 8 {
                         // We have run out of bytes. We may yet be able to decode the remaining bits.
                         // Promote the valid bits and consult the map; if it only consumes valid bits,
